@@ -19,7 +19,7 @@ ASSUMPTIONS = G.E1_ASSUMPTIONS + ["hook: DEFER_QUEUE_SIZE=8", "a function pointe
                                   "the reclaimer's 100 ms poll is a yield on a virtual clock", "bounded: <=3 threads, <=14 ops per thread"]
 EXAMPLES = {"quick": 500, "thorough": 6000}
 FLAVORS = ["memb", "mb", "qsbr", "bp"]
-FAULTS = ("futex_spurious", "futex_eintr")
+FAULTS = ("futex_spurious", "futex_eintr", "futex_wait_enosys", "futex_wait_enosys_all")
 
 
 def example(draw, tier):
